@@ -556,6 +556,86 @@ type evaluator struct {
 	missing map[string]string // base terms requested but not assigned -> kind hint
 	elemIdx map[string]string // binder -> instance suffix
 	kinds   map[string]string // kind of each base term (shared by both sides of a comparison)
+	// learning mode (discovery rounds): which string literals each base term is compared with
+	learn bool
+	probe bool
+	touch []string
+	assoc map[string]map[string]bool
+	links map[string]map[string]bool
+}
+
+// learnFrom records that the base terms touched while evaluating kid i meet the literal (or the terms) of the other kids.
+func (ev *evaluator) learnFrom(kids []*Sym, touched [][]string) {
+	for i, k := range kids {
+		if k.Op == "const" && k.C != nil && k.C.Kind() == constant.String {
+			lit := constant.StringVal(k.C)
+			for j := range kids {
+				if j == i {
+					continue
+				}
+				for _, t := range touched[j] {
+					if ev.assoc[t] == nil {
+						ev.assoc[t] = map[string]bool{}
+					}
+					ev.assoc[t][lit] = true
+				}
+			}
+		}
+	}
+	// terms compared with each other share their literals
+	for i := range kids {
+		for j := i + 1; j < len(kids); j++ {
+			if len(touched[i]) > 4 || len(touched[j]) > 4 {
+				continue
+			}
+			for _, a := range touched[i] {
+				for _, b := range touched[j] {
+					if a == b {
+						continue
+					}
+					if ev.links[a] == nil {
+						ev.links[a] = map[string]bool{}
+					}
+					if ev.links[b] == nil {
+						ev.links[b] = map[string]bool{}
+					}
+					ev.links[a][b] = true
+					ev.links[b][a] = true
+				}
+			}
+		}
+	}
+}
+
+// learnKids evaluates each kid once more, in learning mode only, to find the base terms it depends on.
+func (ev *evaluator) learnKids(kids []*Sym) {
+	if !ev.learn || len(kids) < 2 {
+		return
+	}
+	hasString := false
+	for _, k := range kids {
+		if k.Kind == "string" || (k.Op == "const" && k.C != nil && k.C.Kind() == constant.String) || k.Op == "pred" {
+			hasString = true
+		}
+	}
+	if !hasString {
+		return
+	}
+	ev.learn = false // no nested learning while probing
+	wasProbe := ev.probe
+	touched := make([][]string, len(kids))
+	for i, k := range kids {
+		m := len(ev.touch)
+		ev.probe = true
+		ev.eval(k, "")
+		touched[i] = append([]string{}, ev.touch[m:]...)
+		if !wasProbe {
+			ev.touch = ev.touch[:m]
+		}
+	}
+	ev.probe = wasProbe
+	ev.learn = true
+	ev.learnFrom(kids, touched)
 }
 
 // baseKey returns the canonical key of a base term under the current binder instantiation.
@@ -605,6 +685,9 @@ func isIdentChar(c byte) bool {
 
 func (ev *evaluator) base(s *Sym, hint string) val {
 	k := ev.baseKey(s)
+	if ev.probe {
+		ev.touch = append(ev.touch, k)
+	}
 	if v, ok := ev.e[k]; ok {
 		return v
 	}
@@ -687,6 +770,7 @@ func (ev *evaluator) eval(s *Sym, hint string) val {
 			l, r := ev.eval(s.Kids[0], "bool").b, ev.eval(s.Kids[1], "bool").b
 			return val{k: 'b', b: l || r}
 		}
+		ev.learnKids(s.Kids)
 		h := ""
 		if s.Kids[0].Op == "const" {
 			h = s.Kids[0].Kind
@@ -763,6 +847,7 @@ func (ev *evaluator) eval(s *Sym, hint string) val {
 		}
 		return val{k: 'o'}
 	case "pred":
+		ev.learnKids(s.Kids)
 		switch s.Name {
 		case "hasPrefix":
 			return val{k: 'b', b: strings.HasPrefix(ev.eval(s.Kids[0], "string").s, ev.eval(s.Kids[1], "string").s)}
@@ -937,6 +1022,10 @@ func interpretedList(x *Sym) bool {
 // stringLib interprets the pure string-library calls coca uses for name manipulation, so that two differently written
 // computations (Split/Join, LastIndex + slicing, Replace …) are compared by what they compute.
 func (ev *evaluator) stringLib(s *Sym) (val, bool) {
+	switch s.Name {
+	case "strings.Split", "strings.Replace", "strings.Count", "strings.Index", "strings.LastIndex", "strings.TrimPrefix", "beforeLast", "afterLast":
+		ev.learnKids(s.Kids)
+	}
 	str := func(i int) string { return ev.eval(s.Kids[i], "string").s }
 	switch s.Name {
 	case "strings.Split":
@@ -1100,35 +1189,9 @@ func compareSyms(a, b *Sym, hint string) cmpResult {
 		lits = append(lits, s)
 	}
 	sort.Strings(lits)
-	for _, s := range lits {
-		addS(s)
-		addS(s + "x")
-		addS("x" + s)
-		addS("x" + s + "x")
-		if up := strings.ToUpper(s); up != s {
-			addS(up)
-		}
-		if lo := strings.ToLower(s); lo != s {
-			addS(lo)
-		}
-		if len(s) > 1 {
-			addS(s[:len(s)-1])
-		}
-		if len(s) <= 3 {
-			// separator-like literals: strings with one and with several occurrences, and with a repeated segment
-			addS("a" + s + "b")
-			addS("a" + s + "b" + s + "a" + s + "b")
-		}
-	}
-	// a string can satisfy two substring tests at once: concatenations of pairs of literals
-	if len(lits) >= 2 && len(lits) <= 8 {
-		for _, x := range lits {
-			for _, y := range lits {
-				if x != y && x != "" && y != "" {
-					addS(x + y)
-				}
-			}
-		}
+	strC = variantsOf(strs)
+	for _, s := range strC {
+		seenS[s] = true
 	}
 	// discover base terms by evaluating once with an empty environment, repeatedly (quantifier bodies appear once
 	// their collection has a length)
@@ -1136,8 +1199,10 @@ func compareSyms(a, b *Sym, hint string) cmpResult {
 	e := env{}
 	kinds := map[string]string{}
 	terms := map[string]string{}
+	assoc := map[string]map[string]bool{}
+	links := map[string]map[string]bool{}
 	for round := 0; round < 6; round++ {
-		ev := &evaluator{e: e, missing: map[string]string{}, kinds: kinds}
+		ev := &evaluator{e: e, missing: map[string]string{}, kinds: kinds, learn: true, assoc: assoc, links: links}
 		ev.eval(a, hint)
 		ev.eval(b, hint)
 		grew := false
@@ -1176,7 +1241,21 @@ func compareSyms(a, b *Sym, hint string) cmpResult {
 	for i, n := range names {
 		switch terms[n] {
 		case "string":
-			for _, s := range strC {
+			// literals this term (or a term it is compared with) meets; none known: all of them
+			mine := map[string]bool{}
+			for l := range assoc[n] {
+				mine[l] = true
+			}
+			for o := range links[n] {
+				for l := range assoc[o] {
+					mine[l] = true
+				}
+			}
+			list := strC
+			if len(mine) > 0 {
+				list = variantsOf(mine)
+			}
+			for _, s := range list {
 				cands[i] = append(cands[i], val{k: 's', s: s})
 			}
 		case "bool":
@@ -1533,6 +1612,56 @@ func symFieldOf(x *Sym, path string) *Sym {
 	out := x
 	for _, f := range strings.Split(path, ".") {
 		out = &Sym{Op: "field", Name: f, Kids: []*Sym{out}}
+	}
+	return out
+}
+
+
+// variantsOf: candidate strings built from a set of literals: each literal, with a prefix / suffix, case-flipped, truncated,
+// separator-like literals repeated, and concatenations of pairs (a string can satisfy two substring tests at once).
+func variantsOf(set map[string]bool) []string {
+	var out []string
+	seen := map[string]bool{}
+	add := func(s string) {
+		if !seen[s] {
+			seen[s] = true
+			out = append(out, s)
+		}
+	}
+	add("")
+	add("q")
+	var lits []string
+	for s := range set {
+		lits = append(lits, s)
+	}
+	sort.Strings(lits)
+	for _, s := range lits {
+		add(s)
+		add(s + "x")
+		add("x" + s)
+		add("x" + s + "x")
+		if up := strings.ToUpper(s); up != s {
+			add(up)
+		}
+		if lo := strings.ToLower(s); lo != s {
+			add(lo)
+		}
+		if len(s) > 1 {
+			add(s[:len(s)-1])
+		}
+		if len(s) <= 3 {
+			add("a" + s + "b")
+			add("a" + s + "b" + s + "a" + s + "b")
+		}
+	}
+	if len(lits) >= 2 && len(lits) <= 8 {
+		for _, x := range lits {
+			for _, y := range lits {
+				if x != y && x != "" && y != "" {
+					add(x + y)
+				}
+			}
+		}
 	}
 	return out
 }
